@@ -154,6 +154,7 @@ func checkC01(c *Ctx) {
 	r.Rule("R1.inverse", "decode(encode(v)) = v leaf by leaf for every spec-valid value of every structural configuration")
 	r.Rule("R2.length", "encoding succeeds for every spec-valid value and has the length of its parts")
 	r.Rule("R3.fixed", "fixed-layout sub-structures (MHDR, join/rejoin payloads, identifiers, DLSettings) invert exactly")
+	r.Rule("R5.command-inverse", "every MAC command payload a frame can carry in FOpts or on port 0 decodes back to the value that was encoded, for every accepted value (FOpts and FRMPayload are compared as the MAC commands they carry)")
 	r.Rule("R4.text", "MarshalText/UnmarshalText delegate to the binary codec through base64.StdEncoding")
 	for _, sp := range []aspec{phySpec(), joinAcceptSpec()} {
 		res := runApp(c, sp)
@@ -176,6 +177,13 @@ func checkC01(c *Ctx) {
 		emitFacts(c, res, "R3.fixed", "inv", "enc.size", "undecided")
 	}
 	c01Text(c)
+	// the MAC commands inside FOpts / a port-0 FRMPayload: the frame-level runs above use a few command types as
+	// stand-ins; the per-payload inverse for all of them is the codec analysis C07 is built on
+	for _, s := range macSpecs {
+		res := runCodec(c, s)
+		r.Saw("MAC command codecs analysed", s.name())
+		emitFacts(c, res, "R5.command-inverse", "inv")
+	}
 }
 
 // c01Text: PHYPayload.MarshalText = base64.StdEncoding.EncodeToString(MarshalBinary()), UnmarshalText the converse.
